@@ -60,6 +60,21 @@ type Val struct {
 	Len     int    `json:"len"`
 	Tag     uint32 `json:"tag"`
 	Hostile bool   `json:"hostile,omitempty"` // embeds images of valid log entry payloads at the offsets where MIDDLE fragments begin
+	Tiled   bool   `json:"tiled,omitempty"`   // the value is a run of complete physical record images (crc|len|type|payload), 32 bytes each
+}
+
+// recordImage is a complete, well-formed physical FULL record (32 bytes) whose
+// payload is hostileImage with a one-byte key/value less: put, seq 7777777,
+// key "FAB", value "R".
+func recordImage() []byte {
+	p := hostileImage()
+	p = p[:len(p)-2]
+	binary.LittleEndian.PutUint32(p[16:20], 1)
+	b := make([]byte, 7, 7+len(p))
+	binary.LittleEndian.PutUint32(b[0:4], crc32.ChecksumIEEE(p))
+	binary.LittleEndian.PutUint16(b[4:6], uint16(len(p)))
+	b[6] = wal.RecordTypeFull
+	return append(b, p...)
 }
 
 const maxRec = wal.MaxRecordSize
@@ -88,6 +103,13 @@ func (v Val) Bytes() []byte {
 		} else {
 			out[i] = byte(uint32(i)*2654435761>>24) ^ hdr[0] ^ hdr[1]
 		}
+	}
+	if v.Tiled {
+		img := recordImage()
+		for off := 4; off+len(img) <= len(out); off += len(img) {
+			copy(out[off:], img)
+		}
+		return out
 	}
 	if v.Hostile {
 		img := hostileImage()
@@ -601,7 +623,7 @@ func checkL1(l *layout, ix index, walDir string, f Fault, region string) (*Misma
 					}
 				}
 			}
-			if bytes.Equal(e.Key, []byte("FAB")) && e.SequenceNumber == 7777777 {
+			if bytes.Equal(e.Key, []byte("FAB")) && e.SequenceNumber == 7777777 { // the image planted in hostile/tiled values
 				kind = "fabricated-from-value-bytes"
 			}
 			mm = &Mismatch{Level: "L1", Fault: f, Region: region, Kind: kind,
@@ -1061,12 +1083,16 @@ var valShapes = func() []string {
 }()
 
 func genVal(t *rapid.T, tag *uint32, klen int, small bool) *Val {
-	*tag++
-	v := &Val{Tag: *tag}
 	shape := "small"
 	if !small {
 		shape = rapid.SampledFrom(valShapes).Draw(t, "vshape")
 	}
+	return genValShape(t, tag, klen, shape)
+}
+
+func genValShape(t *rapid.T, tag *uint32, klen int, shape string) *Val {
+	*tag++
+	v := &Val{Tag: *tag}
 	d := 0
 	switch shape {
 	case "small":
@@ -1087,7 +1113,12 @@ func genVal(t *rapid.T, tag *uint32, klen int, small bool) *Val {
 		v.Len = maxRec - 7 - 17 - klen
 	case "multi":
 		v.Len = rapid.IntRange(100*1024, 200*1024).Draw(t, "vlen")
-		v.Hostile = rapid.Bool().Draw(t, "hostile")
+		switch rapid.IntRange(0, 3).Draw(t, "hostile") {
+		case 0, 1:
+			v.Hostile = true
+		case 2:
+			v.Tiled = true
+		}
 	case "hostile":
 		v.Len = rapid.IntRange(2*maxRec, 3*maxRec+100).Draw(t, "vlen")
 		v.Hostile = true
@@ -1095,9 +1126,9 @@ func genVal(t *rapid.T, tag *uint32, klen int, small bool) *Val {
 	if v.Len < 1 {
 		v.Len = 1
 	}
-	if v.Hostile && !ev.Flag("hostile_values") {
+	if (v.Hostile || v.Tiled) && !ev.Flag("hostile_values") {
 		ev.R().Exclude("hostile_values")
-		v.Hostile = false
+		v.Hostile, v.Tiled = false, false
 	}
 	return v
 }
@@ -1126,12 +1157,39 @@ func genFault(t *rapid.T, c *Case, l *layout) Fault {
 	default:
 		ri = rapid.IntRange(0, len(rs)-1).Draw(t, "rec")
 	}
+	// records after which the reader's blind skip re-aligns: the next record
+	// occupies exactly 32 KiB (damage the CRC/payload of this one), or this
+	// one carries a 32 KiB payload (give it an invalid type byte)
+	var alignA, alignB []int
+	for i, x := range rs {
+		if x.typ != wal.RecordTypeFull && i+1 < len(rs) && 7+rs[i+1].plen == maxRec && x.ent != rs[i+1].ent {
+			alignA = append(alignA, i)
+		}
+		if x.plen == maxRec && x.typ != wal.RecordTypeFull && i+1 < len(rs) {
+			alignB = append(alignB, i)
+		}
+	}
+	forced := ""
+	if len(alignA)+len(alignB) > 0 && ev.Flag("corrupt_with_32k_tail") && rapid.IntRange(0, 2).Draw(t, "aligned") == 0 {
+		j := rapid.IntRange(0, len(alignA)+len(alignB)-1).Draw(t, "alignrec")
+		if j < len(alignA) {
+			ri, forced = alignA[j], "payload"
+		} else if ev.Flag("header_byte_faults") {
+			ri, forced = alignB[j-len(alignA)], "badtype"
+		}
+	}
 	r := rs[ri]
+	if forced == "badtype" {
+		return Fault{Kind: "byte", Off: r.off + 6, Class: rapid.SampledFrom([]string{"zero", "ff"}).Draw(t, "class")}
+	}
 	inBatchInterior := func(off int) bool { // strictly inside the span of a batch
 		a := r.app
 		return c.Apps[a].Batch && off > l.appStart[a] && off < l.appEnd[a]
 	}
 	kind := rapid.SampledFrom([]string{"trunc", "byte", "byte"}).Draw(t, "fkind")
+	if forced != "" {
+		kind = "byte"
+	}
 	if kind == "trunc" {
 		reg := rapid.SampledFrom([]string{"boundary", "header", "after-header", "payload", "payload", "payload"}).Draw(t, "region")
 		var off int
@@ -1167,6 +1225,9 @@ func genFault(t *rapid.T, c *Case, l *layout) Fault {
 		return Fault{Kind: "trunc", Off: off}
 	}
 	reg := rapid.SampledFrom([]string{"crc", "len", "type", "payload", "payload"}).Draw(t, "region")
+	if forced == "payload" && reg != "crc" {
+		reg = "payload"
+	}
 	if (reg == "len" || reg == "type") && !ev.Flag("header_byte_faults") {
 		ev.R().Exclude("header_byte_faults")
 		reg = "payload"
@@ -1176,10 +1237,13 @@ func genFault(t *rapid.T, c *Case, l *layout) Fault {
 		// that much log behind the damaged record it resumes parsing in the
 		// middle of data
 		ev.R().Exclude("corrupt_with_32k_tail")
-		for size-(rs[ri].off+7) >= 32*1024 { // (a damaged length or type byte makes the reader consume only the header)
+		for ri < len(rs)-1 && size-(rs[ri].off+7) >= 32*1024 { // (a damaged length or type byte makes the reader consume only the header)
 			ri++
 		}
 		r = rs[ri]
+		if size-(r.off+7) >= 32*1024 && (reg == "len" || reg == "type") {
+			reg = "payload" // last record, itself 32 KiB: only faults that make the reader consume all of it
+		}
 	}
 	var off int
 	switch reg {
@@ -1217,6 +1281,21 @@ func genLog(t *rapid.T, maxApps int, smallOnly bool) Case {
 			}
 		} else {
 			a.Ents = []Ent{genEnt(t, &c, &tag, smallOnly)}
+		}
+		if !smallOnly && !a.Batch && rapid.IntRange(0, 9).Draw(t, "aligned") == 0 {
+			// a fragmented entry, then a record that occupies exactly 32 KiB of the
+			// file, then another fragmented entry: the arrangement in which the
+			// reader's blind 32 KiB skip after a damaged record lands on a record
+			// boundary again
+			k := rapid.IntRange(0, len(c.Keys)-1).Draw(t, "k")
+			sh := rapid.SampledFrom([]string{"big", "rem_edge", "multi"}).Draw(t, "ashape")
+			c.Apps = append(c.Apps, App{Ents: []Ent{{T: wal.OpTypePut, K: k, V: genValShape(t, &tag, len(c.Keys[k]), sh)}}})
+			if rapid.Bool().Draw(t, "withresync") {
+				k = rapid.IntRange(0, len(c.Keys)-1).Draw(t, "k")
+				c.Apps = append(c.Apps, App{Ents: []Ent{{T: wal.OpTypePut, K: k, V: genValShape(t, &tag, len(c.Keys[k]), "resync")}}})
+			}
+			k = rapid.IntRange(0, len(c.Keys)-1).Draw(t, "k")
+			a = App{Ents: []Ent{{T: wal.OpTypePut, K: k, V: genValShape(t, &tag, len(c.Keys[k]), "big")}}}
 		}
 		if i < n-1 && rot < 2 && rapid.IntRange(0, 7).Draw(t, "rotate") == 0 {
 			a.Rotate = true
@@ -1284,7 +1363,7 @@ func classify(c *Case) (nontrivial bool, classes []string) {
 			set["has_batch"] = true
 		}
 		for _, e := range a.Ents {
-			if e.V != nil && e.V.Hostile {
+			if e.V != nil && (e.V.Hostile || e.V.Tiled) {
 				set["hostile_value"] = true
 			}
 		}
